@@ -47,6 +47,10 @@ ts.TokenStore._merge_blocks = _merge
 _MODEL_TOKENS = False
 
 
+class _BadRef(Exception):
+    pass
+
+
 def mk(text: str):
     """A plain Token, or (knob model_tokens) a real value token model whose
     value setter must keep the store's size caches coherent too."""
@@ -255,7 +259,7 @@ class StoreSim(core.Engine):
             if i is None:
                 return None
             if not 0 <= i < n:
-                raise IndexError
+                raise _BadRef
             return ref[i]
 
         def blocks_spanned(a, b):
@@ -371,7 +375,9 @@ class StoreSim(core.Engine):
                     stats['fault:alien_token_refused'] += 1
                     return [], None, 'refused'
                 return [], None, 'not_refused'
-        except IndexError:
+        except _BadRef:
+            # the trace names a position the list does not have (after minimisation); an IndexError raised
+            # by the store itself is not caught here: it is a verdict
             return [], None, 'skip'
         raise core.HarnessError(f'unknown op {kind}')
 
